@@ -480,6 +480,54 @@ impl Space for RoundTies {
     }
 }
 
+/// The public helpers of the finite-double type that duration fields are made of: integrality test, truncation
+/// with saturation, positivity, checked division and fused multiply-add, copysign - on all ordered pairs of a
+/// value set around zero, one half, the i32 / i64 limits and the largest doubles.
+struct FiniteHelpers;
+const FH_VALUES: [f64; 22] = [0.0, -0.0, 0.4, -0.4, 0.5, -0.5, 1.0, -1.0, 1.5, -1.5, 7.0, 2147483647.0, 2147483648.0, -2147483648.0, -2147483649.0, 2147483647.5, 9.3e18, -9.3e18, 1e300, -1e300, f64::MAX, f64::MIN_POSITIVE];
+impl Space for FiniteHelpers {
+    fn name(&self) -> String {
+        "c09.finite_f64_helpers".into()
+    }
+    fn len(&self) -> u64 {
+        (FH_VALUES.len() * FH_VALUES.len()) as u64
+    }
+    fn block(&self) -> u64 {
+        16
+    }
+    fn eval(&self, i: u64, out: &mut Out) {
+        use temporal_rs::primitive::FiniteF64;
+        let (a, b) = (FH_VALUES[i as usize / FH_VALUES.len()], FH_VALUES[i as usize % FH_VALUES.len()]);
+        let (fa, fb) = (FiniteF64::try_from(a).expect("finite"), FiniteF64::try_from(b).expect("finite"));
+        out.nontrivial += 1;
+        let attrs = || vec![("a", format!("{a:e}")), ("b", format!("{b:e}"))];
+        if i as usize % FH_VALUES.len() == 0 {
+            let integral = a == a.trunc();
+            let sat32 = |v: f64| v.clamp(i32::MIN as f64, i32::MAX as f64).trunc() as i32;
+            let sat64 = |v: f64| v.clamp(i64::MIN as f64, i64::MAX as f64).trunc() as i64;
+            let model: Result<i32, ErrorKind> = if integral { Ok(sat32(a)) } else { Err(ErrorKind::Range) };
+            out.lockstep("FiniteF64::as_integer_if_integral::<i32>", &model, &call(|| fa.as_integer_if_integral::<i32>()), |x, y| x == y, attrs);
+            let model: Result<i64, ErrorKind> = if integral { Ok(sat64(a)) } else { Err(ErrorKind::Range) };
+            out.lockstep("FiniteF64::as_integer_if_integral::<i64>", &model, &call(|| fa.as_integer_if_integral::<i64>()), |x, y| x == y, attrs);
+            out.lockstep("FiniteF64::as_integer_with_truncation::<i32>", &Ok(sat32(a)), &call_inf(|| fa.as_integer_with_truncation::<i32>()), |x, y| x == y, attrs);
+            out.lockstep("FiniteF64::as_integer_with_truncation::<i64>", &Ok(sat64(a)), &call_inf(|| fa.as_integer_with_truncation::<i64>()), |x, y| x == y, attrs);
+            let model: Result<i32, ErrorKind> = if sat32(a) > 0 { Ok(sat32(a)) } else { Err(ErrorKind::Range) };
+            out.lockstep("FiniteF64::as_positive_integer_with_truncation::<i32>", &model, &call(|| fa.as_positive_integer_with_truncation::<i32>()), |x, y| x == y, attrs);
+        }
+        let q = a / b;
+        let model = if q.is_finite() { Ok(q) } else { Err(ErrorKind::Range) };
+        out.lockstep("FiniteF64::checked_div", &model, &call(|| fa.checked_div(&fb)), |x, y| y.as_inner().to_bits() == x.to_bits(), attrs);
+        let r = a.mul_add(b, b);
+        let model = if r.is_finite() { Ok(r) } else { Err(ErrorKind::Range) };
+        out.lockstep("FiniteF64::checked_mul_add", &model, &call(|| fa.checked_mul_add(fb, fb)), |x, y| y.as_inner().to_bits() == x.to_bits(), attrs);
+        let model = if a == 0.0 { a } else { a.copysign(b) };
+        out.lockstep("FiniteF64::copysign", &Ok(model), &call_inf(|| fa.copysign(b)), |x, y| y.as_inner().to_bits() == x.to_bits(), attrs);
+    }
+    fn describe(&self) -> serde_json::Value {
+        json!({"values": FH_VALUES.len(), "ordered_pairs": FH_VALUES.len() * FH_VALUES.len()})
+    }
+}
+
 pub fn spaces(env: &Env) -> Vec<Box<dyn Space>> {
     let (free, cal) = operand_alphabet();
     vec![
@@ -488,6 +536,7 @@ pub fn spaces(env: &Env) -> Vec<Box<dyn Space>> {
         Box::new(Pairs { free: free.clone(), cal }),
         Box::new(RoundTotal { durs: free, tier: env.tier }),
         Box::new(RoundTies { name: "c09.round_ties", tier: env.tier }),
+        Box::new(FiniteHelpers),
     ]
 }
 
